@@ -8,6 +8,7 @@
 package main
 
 import (
+	"bytes"
 	"bufio"
 	"fmt"
 	"os"
@@ -48,6 +49,9 @@ var firstBytes = map[string]string{}
 
 const dirtyProgram = "msg;f@0 3 str 616263;fmsg@0 9;e@1 bool true;f@0 4 i32 5"
 
+// earlierProgram is a valid program whose result must survive later uses of the same writer (wn)
+const earlierProgram = "msg;f@0 1 str 6561726c696572;f@0 2 i64 123456789;flist@0 7;e@1 i32 1;e@1 i32 2;end@1;build@0"
+
 func step(line string) string {
 	sp := strings.IndexByte(line, ' ')
 	if sp < 0 {
@@ -75,6 +79,7 @@ func step(line string) string {
 	}
 	buf := buffer.New()
 	var it *wprog.Interp
+	var earlier, earlierCopy []byte
 	switch {
 	case variant == "w":
 		it = wprog.New(buf)
@@ -95,6 +100,15 @@ func step(line string) string {
 		buf.Reset()
 		w.Reset(buf)
 		it = wprog.NewWith(buf, w)
+	case variant == "wn":
+		// a writer with its own buffer that has already built a value; Reset(nil) must give it a new
+		// buffer: the bytes returned by the earlier Build stay what they were
+		w := spec.NewWriter()
+		first := wprog.NewWith(buffer.New(), w).Run(earlierProgram)
+		earlier = first.Bytes
+		earlierCopy = append([]byte(nil), first.Bytes...)
+		w.Reset(nil)
+		it = wprog.NewWith(buffer.New(), w)
 	case variant == "wpool":
 		// churn the pools with a failed and a successful use, then take a pooled writer
 		for k := 0; k < 3; k++ {
@@ -117,6 +131,9 @@ func step(line string) string {
 	}
 	res := it.Run(prog)
 	var flags []string
+	if !bytes.Equal(earlier, earlierCopy) {
+		flags = append(flags, "NONDET-EARLIER-RESULT-OVERWRITTEN")
+	}
 	for _, t := range res.Tokens {
 		if t == "p" {
 			flags = append(flags, "PANIC")
